@@ -309,6 +309,7 @@ class Explorer:
         while size < m:
             size *= 4
         size = max(m, min(size, max(self.chunk, 8)))
+        size = max(m, min(size, getattr(self, "_max_rows", size)))  # memory bound (rows x |A| x bytes per successor)
         if size > m:
             pad = size - m
             state_np = tmap(lambda x: np.concatenate([x, np.repeat(x[:1], pad, axis=0)], axis=0), state_np)
@@ -334,6 +335,13 @@ class Explorer:
             st, ts = to_np(tmap(jnp.asarray, st)), to_np(tmap(jnp.asarray, ts))
         self._treedef_state = jax.tree_util.tree_structure(st)
         R = t_len(st)
+        # memory bound of one expansion: rows x |A| successors, each a (state, timestep) pair; device output, host copy,
+        # canonical byte matrix and monitor temporaries make the peak several times this figure
+        pair_bytes = sum(int(np.prod(x.shape[1:])) * x.dtype.itemsize for x in jax.tree_util.tree_leaves((st, ts)))
+        self._max_rows = max(1, int(0.25e9 // max(1, pair_bytes * self.nA)))
+        self.chunk = max(1, min(self.chunk, self._max_rows))
+        # ... and of the node table / frontier: at most ~1.5 GB of stored (state, timestep) pairs
+        self.max_states = min(self.max_states, max(1000, int(1.5e9 // max(1, pair_bytes))))
         seen: Dict[bytes, int] = {}
         rb = row_bytes(st)
         root_ids = []
